@@ -24,6 +24,7 @@ import ast
 import copy
 import json
 import os
+import re
 
 from . import ev
 from .src import Unknown
@@ -54,7 +55,18 @@ def build_inventory(forest):
             elif isinstance(st, (ast.Import, ast.ImportFrom)):
                 for a in st.names:
                     names.add((a.asname or a.name).split('.')[0])
+        values = {}
+        for st in tree.body:
+            if isinstance(st, ast.Assign) and len(st.targets) == 1 and isinstance(st.targets[0], ast.Name):
+                values[st.targets[0].id] = _skeleton(st.value, ())[0]
+        nested = {}
+        for (mm, q, node) in forest.functions():
+            par = getattr(node, '_parent', None)
+            if mm == m and q.count('.') == 1 and isinstance(par, ast.FunctionDef) and isinstance(getattr(par, '_parent', None), ast.Module):
+                nested[q] = [_skeleton(st, _fn_locals(node))[0] for st in _flat_statements(node)]
         inv[m] = {'locals': reference_names(forest).get(m, {}),
+                  'values': values,
+                  'nested': nested,
                   'functions': sorted(q for (mm, q, node) in forest.functions() if mm == m),
                   'classes': sorted(st.name for st in ast.walk(tree) if isinstance(st, ast.ClassDef)),
                   'names': sorted(names)}
@@ -614,12 +626,330 @@ def _new_constants(forest, mod, tree, inv):
     return out
 
 
+# ---- private module-level names restored from the reference tree ---------------------------------------------
+# Renaming a private (underscore) module-level function or constant consistently is invisible to every caller of the
+# public interface.  A private name of the reference tree that no longer exists is matched with a new module-level name
+# whose definition looks most like the reference definition, and the new name is renamed back *everywhere* (which is
+# behaviour-preserving whatever the match was: the reference name is free, the new name is renamed at every occurrence).
+
+def _blank(text, names):
+    if not names:
+        return text
+    return re.sub(r'N\((%s)\)' % '|'.join(sorted(map(re.escape, names), key=len, reverse=True)), 'N(_)', text)
+
+
+def _identifiers(tree):
+    out = set()
+    for n in ast.walk(tree):
+        if isinstance(n, ast.Name):
+            out.add(n.id)
+        elif isinstance(n, ast.arg):
+            out.add(n.arg)
+        elif isinstance(n, (ast.FunctionDef, ast.AsyncFunctionDef, ast.ClassDef)):
+            out.add(n.name)
+        elif isinstance(n, ast.alias):
+            out.add((n.asname or n.name).split('.')[0])
+        elif isinstance(n, (ast.Global, ast.Nonlocal)):
+            out.update(n.names)
+        elif isinstance(n, ast.ExceptHandler) and n.name:
+            out.add(n.name)
+    return out
+
+
+def _private_renames(tree, minv):
+    """{new name: reference name} for private module-level functions / constants of the reference tree that are gone."""
+    import difflib
+    ref_fns = {q for q in minv.get('functions', ()) if '.' not in q}
+    ref_names = set(minv.get('names', ()))
+    ref_values = minv.get('values', {})
+    ref_locals = minv.get('locals', {})
+    cur_fns = {st.name: st for st in tree.body if isinstance(st, (ast.FunctionDef, ast.AsyncFunctionDef))}
+    cur_vals = {}
+    assigned = set()
+    for st in tree.body:
+        if isinstance(st, ast.Assign):
+            for t in st.targets:
+                assigned |= {n.id for n in ast.walk(t) if isinstance(n, ast.Name)}
+            if len(st.targets) == 1 and isinstance(st.targets[0], ast.Name):
+                cur_vals[st.targets[0].id] = st.value
+        elif isinstance(st, (ast.AugAssign, ast.AnnAssign)):
+            assigned |= {n.id for n in ast.walk(st.target) if isinstance(n, ast.Name)}
+        elif isinstance(st, (ast.Import, ast.ImportFrom)):
+            assigned |= {(a.asname or a.name).split('.')[0] for a in st.names}
+    classes = {st.name for st in tree.body if isinstance(st, ast.ClassDef)}
+    defined = set(cur_fns) | assigned | classes
+    miss_f = sorted(q for q in ref_fns if q.startswith('_') and not q.startswith('__') and q not in defined and q in ref_locals)
+    miss_c = sorted(n for n in ref_names if n.startswith('_') and not n.startswith('__') and n not in defined and n in ref_values)
+    if not miss_f and not miss_c:
+        return {}
+    new_f = sorted(n for n in cur_fns if n not in ref_fns and n not in ref_names)
+    new_c = sorted(n for n in cur_vals if n not in ref_names and n not in ref_fns)
+    used = _identifiers(tree)
+    volatile = set(miss_f) | set(miss_c) | set(new_f) | set(new_c)
+    pairs = []
+    for m in miss_f:
+        if m in used:
+            continue            # the reference name now denotes something else
+        a = [_blank(x[0], volatile) for x in ref_locals[m]]
+        for n in new_f:
+            fn = cur_fns[n]
+            b = [_blank(_skeleton(st, _fn_locals(fn))[0], volatile) for st in _flat_statements(fn)]
+            r = difflib.SequenceMatcher(a=a, b=b, autojunk=False).ratio()
+            if not a and not b:
+                r = 1.0
+            pairs.append((r, m, n))
+    for m in miss_c:
+        if m in used:
+            continue
+        a = _blank(ref_values[m], volatile)
+        for n in new_c:
+            b = _blank(_skeleton(cur_vals[n], ())[0], volatile)
+            r = 1.0 if a == b else difflib.SequenceMatcher(a=a, b=b, autojunk=False).ratio() * 0.99
+            pairs.append((r, m, n))
+    mapping, taken = {}, set()
+    only_f = len(miss_f) == 1 and len(new_f) == 1
+    only_c = len(miss_c) == 1 and len(new_c) == 1
+    for r, m, n in sorted(pairs, key=lambda t: (-t[0], t[1], t[2])):
+        lone = (only_f and m in miss_f) or (only_c and m in miss_c)
+        if r < (0.2 if lone else 0.4) or m in taken or n in mapping:
+            continue
+        mapping[n] = m
+        taken.add(m)
+    # a new name that is also a parameter name somewhere cannot be renamed without touching keyword arguments
+    args = {x.arg for x in ast.walk(tree) if isinstance(x, ast.arg)} | {k.arg for k in ast.walk(tree) if isinstance(k, ast.keyword) and k.arg}
+    return {n: m for n, m in mapping.items() if n not in args and m not in args}
+
+
+def _apply_renames(tree, mapping):
+    for n in ast.walk(tree):
+        if isinstance(n, ast.Name) and n.id in mapping:
+            n.id = mapping[n.id]
+        elif isinstance(n, (ast.FunctionDef, ast.AsyncFunctionDef, ast.ClassDef)) and n.name in mapping:
+            n.name = mapping[n.name]
+        elif isinstance(n, (ast.Global, ast.Nonlocal)):
+            n.names = [mapping.get(x, x) for x in n.names]
+        elif isinstance(n, ast.ExceptHandler) and n.name in mapping:
+            n.name = mapping[n.name]
+
+
+def _apply_renames_importer(tree, mod, mapping):
+    """In another module: ``from .mod import new`` -> ``from .mod import ref as new``; ``mod.new`` -> ``mod.ref``."""
+    changed = False
+    aliases = set()
+    for st in ast.walk(tree):
+        if isinstance(st, ast.ImportFrom):
+            target = (st.module or '').split('.')[-1]
+            for a in st.names:
+                if target == mod and a.name in mapping:
+                    a.asname = a.asname or a.name
+                    a.name = mapping[a.name]
+                    changed = True
+                elif a.name == mod and (st.module in (None, 'segno') or st.level):
+                    aliases.add(a.asname or a.name)
+        elif isinstance(st, ast.Import):
+            for a in st.names:
+                if a.name.split('.')[-1] == mod and a.asname:
+                    aliases.add(a.asname)
+    for n in ast.walk(tree):
+        if isinstance(n, ast.Attribute) and n.attr in mapping and isinstance(n.value, ast.Name) and n.value.id in aliases:
+            n.attr = mapping[n.attr]
+            changed = True
+    return changed
+
+
+def _params(fn):
+    out = set()
+    for n in ast.walk(fn):
+        if isinstance(n, (ast.FunctionDef, ast.AsyncFunctionDef, ast.Lambda)):
+            a = n.args
+            out |= {x.arg for x in a.posonlyargs + a.args + a.kwonlyargs}
+            if a.vararg:
+                out.add(a.vararg.arg)
+            if a.kwarg:
+                out.add(a.kwarg.arg)
+    return out
+
+
+def _own_scope(fn):
+    """Names that are local to `fn` itself (parameters, assigned names, nested definitions), nested scopes not entered."""
+    a = fn.args
+    out = {x.arg for x in a.posonlyargs + a.args + a.kwonlyargs}
+    if a.vararg:
+        out.add(a.vararg.arg)
+    if a.kwarg:
+        out.add(a.kwarg.arg)
+    stack = list(fn.body)
+    while stack:
+        n = stack.pop()
+        if isinstance(n, (ast.FunctionDef, ast.AsyncFunctionDef, ast.ClassDef)):
+            out.add(n.name)
+            continue
+        if isinstance(n, ast.Lambda):
+            continue
+        if isinstance(n, ast.Name) and isinstance(n.ctx, (ast.Store, ast.Del)):
+            out.add(n.id)
+        elif isinstance(n, ast.ExceptHandler) and n.name:
+            out.add(n.name)
+        elif isinstance(n, ast.alias):
+            out.add((n.asname or n.name).split('.')[0])
+        stack.extend(ast.iter_child_nodes(n))
+    return out
+
+
+def _maybe_free(fn):
+    """Over-approximation of the names `fn` takes from outside (every name mentioned, defaults and decorators included,
+    minus the function's own parameters and assigned names)."""
+    mentioned = {n.id for n in ast.walk(fn) if isinstance(n, ast.Name)}
+    for n in ast.walk(fn):
+        if isinstance(n, (ast.Global, ast.Nonlocal)):
+            mentioned |= set(n.names)
+    own = _own_scope(fn)
+    outside = set()
+    for d in fn.args.defaults + [x for x in fn.args.kw_defaults if x is not None] + fn.decorator_list:
+        outside |= {n.id for n in ast.walk(d) if isinstance(n, ast.Name)}
+    return (mentioned - own) | outside | {x for n in ast.walk(fn) if isinstance(n, ast.Nonlocal) for x in n.names}
+
+
+def _sim(a, b):
+    import difflib
+    if not a and not b:
+        return 1.0
+    return difflib.SequenceMatcher(a=a, b=b, autojunk=False).ratio()
+
+
+def _renest(tree, minv):
+    """Nested functions of the reference tree that were moved to module level are copied back into their function (the
+    module-level definition stays for its other users).  Module-level private functions of the reference tree that were moved
+    into their only user are copied back out.  Both are exact when the moved function takes no name from the function
+    it is moved into / out of, which is checked.  Returns a description of what was done."""
+    done = {}
+    ref_fns = set(minv.get('functions', ()))
+    ref_nested = minv.get('nested', {})
+    ref_locals = minv.get('locals', {})
+    top = {st.name: st for st in tree.body if isinstance(st, ast.FunctionDef)}
+    new_top = {k: v for k, v in top.items() if k not in ref_fns and k not in minv.get('names', ())}
+    volatile = set(new_top) | {q.split('.')[1] for q in ref_nested}
+
+    def nested_defs(fn):
+        return {n.name: n for n in ast.walk(fn) if isinstance(n, ast.FunctionDef) and n is not fn}
+
+    # (a) module level -> back into the function
+    pairs = []
+    for q, ref in ref_nested.items():
+        outer_name, inner = q.split('.')
+        outer = top.get(outer_name)
+        if outer is None or inner in nested_defs(outer) or inner in _identifiers(outer):
+            continue
+        loaded = {n.id for n in ast.walk(outer) if isinstance(n, ast.Name)}
+        scope = _own_scope(outer)
+        a = [_blank(x, volatile) for x in ref]
+        cands = []
+        for name, fn in new_top.items():
+            if name not in loaded or name in scope:
+                continue
+            if _maybe_free(fn) & (scope | {inner}):
+                continue
+            b = [_blank(_skeleton(st, _fn_locals(fn))[0], volatile) for st in _flat_statements(fn)]
+            cands.append((_sim(a, b), name))
+        for r, name in cands:
+            pairs.append((r, q, name, len(cands)))
+    taken_q, taken_n = set(), set()
+    for r, q, name, ncand in sorted(pairs, key=lambda t: (-t[0], t[1], t[2])):
+        if q in taken_q or (q.split('.')[0], name) in taken_n or r < (0.2 if ncand == 1 else 0.4):
+            continue
+        taken_q.add(q)
+        taken_n.add((q.split('.')[0], name))
+        outer_name, inner = q.split('.')
+        outer = top[outer_name]
+        cp = copy.deepcopy(new_top[name])
+        cp.name = inner
+        cp.decorator_list = list(cp.decorator_list)
+        _apply_renames(cp, {name: inner})
+        _apply_renames(outer, {name: inner})
+        pos = 1 if (outer.body and isinstance(outer.body[0], ast.Expr) and isinstance(getattr(outer.body[0], 'value', None), ast.Constant)
+                    and isinstance(outer.body[0].value.value, str)) else 0
+        outer.body.insert(pos, cp)
+        done[f'{name} -> {q}'] = round(r, 2)
+    # (b) from inside a function -> back to module level
+    miss = sorted(m for m in ref_fns if '.' not in m and m.startswith('_') and not m.startswith('__') and m not in top and m in ref_locals)
+    if miss:
+        used = _identifiers(tree)
+        pairs = []
+        for m in miss:
+            if m in used:
+                continue
+            a = [_blank(x[0], volatile | set(miss)) for x in ref_locals[m]]
+            for oname, outer in top.items():
+                scope = _own_scope(outer)
+                for st in outer.body:
+                    if not isinstance(st, ast.FunctionDef) or f'{oname}.{st.name}' in ref_fns:
+                        continue
+                    if _maybe_free(st) & (scope - {st.name}):
+                        continue
+                    b = [_blank(_skeleton(x, _fn_locals(st))[0], volatile | set(miss)) for x in _flat_statements(st)]
+                    pairs.append((_sim(a, b), m, oname, st))
+        taken_m, taken_s = set(), set()
+        for r, m, oname, st in sorted(pairs, key=lambda t: (-t[0], t[1], t[2])):
+            if m in taken_m or id(st) in taken_s or r < 0.4:
+                continue
+            taken_m.add(m)
+            taken_s.add(id(st))
+            outer = top[oname]
+            old = st.name
+            outer.body.remove(st)
+            if not outer.body:
+                outer.body.append(ast.Pass())
+            st.name = m
+            _apply_renames(st, {old: m})
+            _apply_renames(outer, {old: m})
+            tree.body.insert(tree.body.index(outer), st)
+            done[f'{oname}.{old} -> {m}'] = round(r, 2)
+    return done
+
+
+def _strip_parents(tree):
+    t2 = copy.deepcopy(tree)
+    for n in ast.walk(t2):
+        if hasattr(n, '_parent'):
+            del n._parent
+    return t2
+
+
 def apply(forest):
     """The forest with new helpers inlined and new constants folded (same object if nothing is new)."""
     if getattr(forest, '_canon', False):
         return forest
     inv = inventory()
     info = {'inlined': 0, 'folded': 0, 'helpers': [], 'constants': [], 'renamed': {}}
+    # step -1: private module-level names as in the reference tree
+    for mod in list(forest.trees):
+        mp = _private_renames(forest.trees[mod], inv.get(mod, {}))
+        if not mp:
+            continue
+        info['renamed'][f'{mod}.<module>'] = mp
+        t2 = _strip_parents(forest.trees[mod])
+        _apply_renames(t2, mp)
+        forest = forest.with_tree(mod, t2)
+        for other in list(forest.trees):
+            if other == mod:
+                continue
+            t3 = _strip_parents(forest.trees[other])
+            if _apply_renames_importer(t3, mod, mp):
+                forest = forest.with_tree(other, t3)
+    # step -0.5: functions moved between module level and a function body
+    for mod in list(forest.trees):
+        minv = inv.get(mod, {})
+        cur_q = {q for (m, q, node) in forest.functions() if m == mod}
+        gone = [q for q in minv.get('nested', {}) if q not in cur_q] + \
+               [q for q in minv.get('functions', ()) if '.' not in q and q.startswith('_') and not q.startswith('__') and q not in cur_q]
+        if not gone:
+            continue
+        t2 = _strip_parents(forest.trees[mod])
+        done = _renest(t2, minv)
+        if done:
+            info['renamed'][f'{mod}.<moved>'] = done
+            ast.fix_missing_locations(t2)
+            forest = forest.with_tree(mod, t2)
     # step 0: local names as in the reference tree
     for mod in list(forest.trees):
         refs = inv.get(mod, {}).get('locals', {})
@@ -742,7 +1072,8 @@ def _fn_locals(fn):
             out.add(n.id)
         elif isinstance(n, ast.ExceptHandler) and n.name:
             out.add(n.name)
-    inner = {n.name for n in ast.walk(fn) if isinstance(n, (ast.FunctionDef, ast.ClassDef)) and n is not fn}
+    inner = {n.name for n in ast.walk(fn) if isinstance(n, ast.ClassDef)}
+    out |= {n.name for n in ast.walk(fn) if isinstance(n, (ast.FunctionDef, ast.AsyncFunctionDef)) and n is not fn}
     return out - params - inner
 
 
@@ -792,7 +1123,11 @@ def _skeleton(st, local_names):
                 if top and isinstance(node, _COMPOUND) and fld in _BODY_FIELDS:
                     continue
                 out.append(fld + '=')
-                dump(val, False)
+                if fld == 'name' and isinstance(node, (ast.FunctionDef, ast.AsyncFunctionDef)) and val in local_names:
+                    names.append(val)           # a nested function's name is a local of the enclosing function
+                    out.append('N(_)')
+                else:
+                    dump(val, False)
                 out.append(',')
             out.append(')')
         elif isinstance(node, list):
@@ -858,4 +1193,8 @@ def restore_names(fn, ref):
             n.id = mapping[n.id]
         elif isinstance(n, ast.ExceptHandler) and n.name in mapping:
             n.name = mapping[n.name]
+        elif isinstance(n, (ast.FunctionDef, ast.AsyncFunctionDef)) and n is not fn and n.name in mapping:
+            n.name = mapping[n.name]
+        elif isinstance(n, ast.Nonlocal):
+            n.names = [mapping.get(x, x) for x in n.names]
     return mapping
